@@ -17,7 +17,7 @@ PID = 'C03'
 
 META = {
     'technique': 'type-resolved field def-use: fields read through the copied input header in pipeline code vs fields stored by the copy-in functions and the pool creator; sibling agreement of the two copy functions; reaching sources of the packet timestamp / private-pointer stores',
-    'text': 'Decides the propagation clause of C03: what a packet reports (pts, dts, application pointer, picture type, qp, flags, metadata) can only be right if the copy-in functions populate every header field that is read downstream and the packetization thread stores them from the displayed picture. Counting packets, their order and EOS placement are run-time queue properties and are not decided.',
+    'text': 'Decides the propagation clause of C03: what a packet reports (pts, dts, application pointer, picture type, qp, flags, metadata) can only be right if the copy-in functions populate every header field that is read downstream and the packetization thread stores them from the displayed picture. Counting packets, their order and EOS placement are run-time queue properties and are not decided. Also decided: every computation on a timestamp (the show-existing queue is ordered by pts) stays in the signed 64-bit type - no narrowing or unsigned cast or local.',
     'note': 'fields the application never sets (n_tick_count, size ...) are irrelevant: the rule is "read implies populated"',
     'ref': 'DESIGN.md section 5 C03',
 }
